@@ -233,6 +233,21 @@ func run(cfg *runCfg, mode string) int {
 	tSolve := time.Since(tS).Seconds()
 
 	if mode == "baseline" {
+		seenT := map[string]bool{}
+		for _, fp := range g.cs.FieldProto {
+			if seenT[fp.Type] {
+				continue
+			}
+			seenT[fp.Type] = true
+			props := fp.Props
+			if len(props) == 0 {
+				props = []string{"C16"}
+			}
+			declaredClauses = append(declaredClauses, struct {
+				name  string
+				props []string
+			}{"proto:store(" + fp.Type + ".*):default", props})
+		}
 		return writeBaseline(cfg, allObls, engineErrors)
 	}
 	return report(cfg, g, results, allObls, engineErrors, tLoad, tGen, tSolve, time.Since(t0).Seconds())
